@@ -149,6 +149,25 @@ def enumerate_cases():
                 ctxs.insert(pos, copy.deepcopy(dead))
                 for fe in STREAM_FES:
                     cases.append(_case(f"{bname}/dead-context-{nghost}/ctxpos{pos}/{fe}", tbl, ctxs, fe))
+    # consumer "crash" at every yield point: abandon the generator after k yields, restart it on the
+    # same stream and Config objects, for a scribbling fault, a rejected-parameter fault and no fault
+    crash_faults = [
+        None,
+        {"sid": "v1", "module": "axds", "test": "sim_fault", "params": {"mode": "raise", "exc": "SimFault", "scribble": True, "tag": 2}, "role": "F6"},
+        {"sid": "v2", "module": "qartod", "test": "spike_test", "params": {"suspect_threshold": 1, "method": "median"}, "role": "F3"},
+    ]
+    for bname, contexts in bases:
+        for fi, f in enumerate(crash_faults):
+            ctxs = copy.deepcopy(contexts)
+            if f is not None:
+                ctxs[0]["entries"].insert(1, copy.deepcopy(f))
+            nyield = sum(len(c["entries"]) for c in ctxs)
+            for k in range(1, nyield + 1):
+                for fe in STREAM_FES:
+                    c = _case(f"{bname}/abandon-after-{k}/fault{fi}/{fe}", tbl, ctxs, fe)
+                    c["abandon"] = [{"task": fe, "after_yields": k, "restart": True}]
+                    c["reruns"] = []
+                    cases.append(c)
     for bname, contexts in bases:
         for f in _single_faults(tbl):
             for ci, c in enumerate(contexts):
@@ -450,7 +469,7 @@ EVIDENCE = {
         "one fault entry or more than one context; distinct = distinct (digest of all yielded results, digest of the event-kind "
         "sequence)."
     ),
-    "exhaustive_scope": "single-fault family over the two base configs only (coverage.enumerated_cases); the seeded search is sampling",
+    "exhaustive_scope": "single-fault family, dead-context family and abandon-at-every-yield-point family over the two base configs only (coverage.enumerated_cases); the seeded search is sampling",
     "real": [
         "ioos_qc.config (Config, ContextConfig, Call.run, QcConfig.run)",
         "ioos_qc.streams (PandasStream, NumpyStream, NetcdfStream, XarrayStream)",
